@@ -22,6 +22,7 @@ import warnings
 import numpy as np
 from .. import common
 from ..common import enc, ask
+from ..translator import py2lean
 
 LEVEL = "proof"
 RULE = ("diagram plots: 1-4 diagrams (single array or list) of 0-6 points from lattice/half/dyadic(2^-20..2^20)/decimal/"
@@ -854,6 +855,7 @@ def nontrivial(case, model):
 
 
 def run(ctx):
+    py2lean.report_broken(ctx, PROP_FILES)          # generated obligations (Generated/SrcPlot.lean) that no longer check
     r = ctx.rng
     ctx.extra["source_digest"] = {
         "visuals": common.source_digest("persim/visuals.py", ["plot_diagrams", "bottleneck_matching", "wasserstein_matching"]),
@@ -1053,3 +1055,19 @@ MANIFEST = {
             "or a `range` is what works and what is generated.",
     "technique": "Lean 4 theorems over a hand-written artist-list model + differential read-back of matplotlib artists on two axes",
 }
+
+# ----------------------------------------------------------------------------- source translator (DESIGN.md 3.2, key "plot")
+# harness/translator/py2lean_plot.py re-translates plot_diagrams / bottleneck_matching / wasserstein_matching (and the 2-D landscape
+# plots) from PERSIM_ROOT's source into Generated/SrcPlot.lean on every run; the obligations src_<f>_eq_model tie the translated
+# text to Model/Plot.lean for all inputs (Lemmas/SrcBridgePlot.lean), the text pins cover what is not translated.
+TRUSTED = [py2lean.trusted_note("plot")]
+PROP_FILES = ["PersimVerif/Props/C20.lean"] + py2lean.prop_files("plot")
+
+
+def pre_build(ctx):
+    """source translator: regenerate Generated/SrcPlot.lean from PERSIM_ROOT's source"""
+    py2lean.pre_build(ctx, ("plot",))
+
+
+MANIFEST["note"] += " " + py2lean.manifest_note("plot")
+MANIFEST["technique"] += " + source translator (statement-level, proved equal to the model)"
